@@ -295,6 +295,31 @@ def run(ctx):
         ctx.check(want_tag in t, "hook-tag:" + short(f), "value-shape", f.loc(pushes[0]) if pushes else f.loc(),
                   "hooks carry %s as drop-in tag" % want_tag, "hook tagged with " + t[:80])
     ctx.floor("hook_insert_sites", 2, "hook list insertion sites")
+    # priority order survives every other operation on the hook list: only order-preserving mutators may touch it
+    STABLE = {"emplace_back", "push_back", "erase", "clear", "remove_if", "remove", "erase_if", "begin", "end", "cbegin", "cend", "rbegin", "rend", "crbegin", "crend",
+              "size", "empty", "reserve", "find_if", "find", "any_of", "all_of", "none_of", "for_each", "count_if", "operator=", "stable_partition", "shrink_to_fit"}
+    n_ops = 0
+    for f in P.fns.values():
+        if f.kind in ("ctor", "dtor") and not f.nodes:
+            continue
+        for i, n in enumerate(f.nodes):
+            if n["k"] != "call" or f.pos_of(i) is None:
+                continue
+            recv = f.text(n["recv"]) if "recv" in n else ""
+            touches = recv.endswith("prekill_hooks_in_reverse_order_") or any(
+                re.match(r"^(this->)?prekill_hooks_in_reverse_order_(\.(begin|end|rbegin|rend)\(\))?$", f.text(a)) for a in n.get("args", []))
+            if not touches:
+                continue
+            n_ops += 1
+            nm = n.get("cname") or ""
+            if nm in STABLE or n.get("op") in ("=",):
+                continue
+            ctx.violation("hook-order-preserved:%s@%s" % (short(f), nm), "who-may-write (order-preserving operations)", f.loc(i),
+                          "%s is applied to the prekill hook list: it is not an order-preserving operation, so the surviving hooks can be tried in a "
+                          "different priority order (drop-in hooks newest first, then base hooks in config order)" % nm)
+    ctx.counters["hook_list_operations"] = n_ops
+    ctx.floor("hook_list_operations", 5, "operations on prekill_hooks_in_reverse_order_")
+    ctx.ok("hook-order-preserved", "who-may-write (order-preserving operations)", "-", "%d operations on the hook list, all order preserving" % n_ops)
     add = ctx.fn1("Oomd::Engine::Engine::addDropInConfig")
     # hooks are appended only after all rulesets of the unit were added
     pushes = [i for i in add.calls("emplace_back") if "prekill_hooks_in_reverse_order_" in add.text(add.nodes[i].get("recv", -1))]
